@@ -371,6 +371,48 @@ func generate(seed uint64, focus, arm string) *plan.Plan {
 		if r.p(0.2) {
 			rs.FlushUs = []int64{r.i64(2_000_000, max(3_000_000, p.Router.HorizonUs/2))}
 		}
+		if focus == "C08" && r.p(0.3) {
+			// a late write: the server stops answering just before three answers
+			// are stored; the first SET times out (3 s), the second one too, and
+			// the third is executed seconds late with the lifetime computed when
+			// it was queued - the key then outlives the value's own expiry.  A
+			// query for it comes after the expiry (plus the allowance) while the
+			// key is still there.
+			rp := p.Router
+			w := r.i64(1_000_000, 3_000_000)
+			d := r.i64(3_300_000, 5_700_000)
+			life := int64([]int{5, 6, 8}[r.intn(3)])
+			rs.LatUs = [2]int64{100, 600}
+			rs.DownUs = [][2]int64{{w, w + d}}
+			rs.FlushUs = nil
+			for k := 0; k < 3; k++ {
+				tok := fmt.Sprintf("t%d", 900+k)
+				delay := []int64{40_000, 120_000, 260_000}[k] + r.i64(0, 30_000)
+				rp.Tokens[tok] = &plan.TokenSpec{Ans: plan.AnswerSpec{NAn: 1, TTLs: []uint32{uint32(life)}, Shape: "plain"}, Acts: []plan.UpAction{{Kind: "reply", DelayUs: delay}}}
+				ats := []int64{w - r.i64(8_000, 12_000)}
+				if k > 0 {
+					ats = append(ats, w+300_000+life*1_000_000+2_300_000+r.i64(0, 2_600_000))
+				}
+				for _, at := range ats {
+					si := r.intn(len(rp.Servers))
+					ci := len(rp.Conns)
+					cc := plan.ClientConn{Idx: ci, Server: si, LingerUs: 8_000_000, Src: "192.0.2.7"}
+					if strings.HasPrefix(rp.Servers[si].Listen, "[::1]") {
+						cc.Src = "2001:db8:a::5"
+					}
+					rp.Conns = append(rp.Conns, cc)
+					op := plan.ClientOp{Idx: len(rp.Ops), Conn: ci, AtUs: at, ID: uint16(r.u64()), Token: tok, NQ: 1, Class: 1, Type: 1, Bits: refdns.BitRD}
+					op.Labels = append([][]byte{[]byte(tok)}, labelsOf("example.com")...)
+					if pr := rp.Servers[si].Proto; pr == "http" || pr == "fasthttp" || pr == "https" {
+						op.Method = "POST"
+					}
+					rp.Ops = append(rp.Ops, op)
+					if at+10_000_000 > rp.HorizonUs {
+						rp.HorizonUs = at + 10_000_000
+					}
+				}
+			}
+		}
 		p.Router.Cache.Redis = rs
 	}
 	return p
